@@ -1185,7 +1185,16 @@ impl<'de, R: Read<'de>> Parser<R> {
                     return self.parse_exponent(pos, significand, exponent);
                 }
                 _ => {
-                    return self.f64_from_parts(pos, significand, exponent);
+                    if radix == 10 {
+                        return self.f64_from_parts(pos, significand, exponent);
+                    }
+                    // `exponent` counts the digits left out of `significand`,
+                    // in the given radix.
+                    let f = significand as f64 * f64::from(radix).powi(exponent);
+                    if f.is_infinite() {
+                        return Err(self.error(ErrorCode::NumberOutOfRange));
+                    }
+                    return Ok(if pos { f } else { -f });
                 }
             };
             if digit >= radix {
